@@ -60,6 +60,8 @@ def tasks(tier):
     for p in ([True], [False, True]):
         ts.append(("run %s zero" % "".join("T" if x else "F" for x in p), "run_scenario", dict(pattern=list(p), maxiter=len(p), zero=True)))
     ts.append(("tools.solve zero", "run_tools_solve", dict(zero=True)))
+    # boundary values of the partition: no free unknown at all (a patch test on a mesh without interior points), no prescribed unknown at all
+    ts.append(("partitioned solve, degenerate partitions", "run_partition_edges", {}))
     return ts
 
 
@@ -415,3 +417,32 @@ def run_included(col, modname, fname, kwargs, oid, why):
     from ..common import include
 
     include(col, modname, fname, kwargs, oid, why)
+
+
+def run_partition_edges(col):
+    """solve.partition + solve.solve with an empty set of free (resp. prescribed) unknowns"""
+    it = new_interp()
+    fc, n, dof0, dof1, ext0, regs = scenario.make_problem(it)
+    part = it.get("felupe.solve._solve:partition")
+    solve = it.get("felupe.solve._solve:solve")
+    K = npmodel.AbstractSparse(symarray("K", (n, n)))
+    r = symarray("r", (n,))
+    u = scenario.flat_values(it, fc)
+    for label, d1, d0 in (("no free unknown", np.zeros(0, dtype=int), np.arange(n)), ("no prescribed unknown", np.arange(n), np.zeros(0, dtype=int))):
+        def chk(d1=d1, d0=d0):
+            log = []
+            solver = scenario.ScriptedSolver(log)
+            e0 = symarray("e", (len(d0),))
+            system = it.call(part, [fc, K, d1, d0, r], {})
+            du = npmodel.to_obj(np.asarray(it.call(solve, list(system), dict(ext0=e0, solver=solver)))).reshape(-1)
+            bad = [int(j) for b, j in enumerate(d0) if not is_zero(P(du[j]) - (e0[b] - u[j]))]
+            sols = [e for e in log if e[0] == "solve"]
+            if len(d1):
+                want = [-r[i] for i in d1]
+                okr = len(sols) == 1 and all(is_zero(P(a) - b) for a, b in zip(np.asarray(sols[0][3]).reshape(-1), want))
+                oku = all(is_zero(P(du[i]) - ring.sym("dx1[%d]" % a)) for a, i in enumerate(d1))
+            else:
+                okr, oku = True, True
+            return not bad and okr and oku and du.shape == (n,), "solve/_solve.py solve: prescribed unknowns without their increment %s" % bad
+        col.check("C07.O5", "partitioned solve, %s" % label, "du0 == ext0 - u0 on every prescribed unknown and K11 du1 == -r1 - K10 (ext0 - u0) on the free ones, also when one of the two sets is empty", chk)
+    finish_info(col, it)
